@@ -29,11 +29,13 @@ class Rec:
         self.nbatches = 0
         self.count = 0
         self.stop_returned_step = None
+        self.mark = 0
         self.delivered = threading.Event()
 
 
 def make_callback(rec, events):
     def cb(batch):
+        rec.mark = 1            # racy field: a scheduling point at the start of the callback (it can start arbitrarily late)
         t = time.time()
         rec.batch_time.append(t)
         rec.batch_step.append(api.step())
@@ -124,14 +126,14 @@ def check(rep):
     mod = __name__
     quick = rep.tier == "quick"
     specs = [
-        dict(name="delivery: 1 event, interval 0.5", module=mod, harness="h_delivery", args=(1, 0.5), steps=20),
-        dict(name="stop race: 2 events, interval 0.5", module=mod, harness="h_stop_race", args=(2, 0.5), steps=30),
-        dict(name="delivery: 2 events, no debounce interval", module=mod, harness="h_delivery", args=(2, 0), steps=26),
+        dict(name="delivery: 1 event, interval 0.5", module=mod, harness="h_delivery", args=(1, 0.5), steps=22),
+        dict(name="stop race: 2 events, interval 0.5", module=mod, harness="h_stop_race", args=(2, 0.5), steps=33),
+        dict(name="delivery: 2 events, no debounce interval", module=mod, harness="h_delivery", args=(2, 0), steps=29),
     ]
     if not quick:
-        specs.append(dict(name="delivery: 2 events, interval 0.5", module=mod, harness="h_delivery", args=(2, 0.5), steps=30))
+        specs.append(dict(name="delivery: 2 events, interval 0.5", module=mod, harness="h_delivery", args=(2, 0.5), steps=33))
     for sp in specs:
-        sp.update(jobs=5, query_timeout_s=900 if quick else 3000, loop_bound=400)
+        sp.update(jobs=5, query_timeout_s=900 if quick else 3000, loop_bound=400, racy=[("Rec", "mark")])
     res = run_sessions(specs, workers=len(specs))
     rep.add_results(res)
     rep.bounds = {"programs": [sp["name"] for sp in specs], "steps_K": [sp["steps"] for sp in specs]}
